@@ -199,6 +199,9 @@ class TypeSafeBinaryOperation(BinaryOperation):
     def eval(self, row, schema):
         value_1 = self.arg1.eval(row, schema)
         value_2 = self.arg2.eval(row, schema)
+        return self.eval_values(value_1, value_2)
+
+    def eval_values(self, value_1, value_2):
         if value_1 is None or value_2 is None:
             return None
 
